@@ -26,6 +26,7 @@ findings are (property, signature, text) triples.
 from __future__ import annotations
 
 import gc
+import hashlib
 import importlib
 import json
 import time
@@ -66,12 +67,16 @@ class Result:
 
 
 def _expand_batch(arg: tuple) -> dict:
-    mod, cfg, idx, hists, want_hist = arg
+    """Expand a batch of frontier items (part index, history, keep history?)."""
+    mod, cfgs, idx, items = arg
     sp = importlib.import_module(mod).SPACE
     new: dict[bytes, Any] = {}
     dead: set = set()
-    res = Result()
-    for h in hists:
+    stats: dict[int, Result] = {}
+    for pi, h, want_hist in items:
+        cfg = cfgs[pi]
+        res = stats.setdefault(pi, Result())
+        tag = bytes([pi])
         pre_obj = sp.replay(cfg, h)
         pre = sp.observe(pre_obj)
         cache: dict = {}
@@ -87,7 +92,7 @@ def _expand_batch(arg: tuple) -> dict:
                 })
             if post is None or not go:
                 continue
-            key = sp.key(obj2, post)
+            key = tag + sp.key(obj2, post)
             if key in _SEEN or key in new or key in dead:
                 continue
             F2, broken = sp.judge_state(obj2, post, call[0])
@@ -98,16 +103,130 @@ def _expand_batch(arg: tuple) -> dict:
             if broken:
                 dead.add(key)
                 continue
-            new[key] = (h + [call]) if want_hist else None
-            if sp.nontrivial(post):
-                res.nontrivial += 1
-                new[key] = (new[key], True)
-            else:
-                new[key] = (new[key], False)
+            new[key] = ((h + [call]) if want_hist else None, sp.nontrivial(post))
     return {
-        'idx': idx, 'new': new, 'dead': dead, 'transitions': res.transitions,
-        'methods': res.methods, 'findings': res.findings, 'n_hist': len(hists),
+        'idx': idx, 'new': new, 'dead': dead, 'n_items': len(items),
+        'per_part': {pi: (r.transitions, r.methods, r.findings)
+                     for pi, r in stats.items()},
+        'items_per_part': Counter(pi for pi, _, _ in items),
     }
+
+
+def bfs_multi(space_mod: str, parts: list[dict], procs: int = 16,
+              deadline: float | None = None, keep: bool = False,
+              progress: Any = None) -> list[Result]:
+    """Breadth-first search of several parts at once, one worker pool per
+    level for all of them.  A part is {'cfg': dict, 'depth': int,
+    'root': history (optional)}; returns one Result per part."""
+    global _SEEN
+    sp = importlib.import_module(space_mod).SPACE
+    _SEEN = set()
+    cfgs = [p['cfg'] for p in parts]
+    RS = [Result() for _ in parts]
+    frontier: list[tuple] = []
+    for pi, p in enumerate(parts):
+        root = list(p.get('root') or [])
+        obj = sp.replay(p['cfg'], root)
+        obs = sp.observe(obj)
+        _SEEN.add(bytes([pi]) + sp.key(obj, obs))
+        F, broken = sp.judge_state(obj, obs, 'init')
+        if F or broken:
+            raise HarnessError(f'initial state of part {pi} is not clean: {F}')
+        RS[pi].states = 1
+        if keep:
+            RS[pi].histories.append(root)
+        frontier.append((pi, root))
+    maxdepth = max(p['depth'] for p in parts)
+    for d in range(1, maxdepth + 1):
+        frontier = [(pi, h) for pi, h in frontier if parts[pi]['depth'] >= d]
+        if not frontier:
+            break
+        t0 = time.time()
+        # a fixed pseudo-random order: even load, and a level that is cut
+        # short by the time cap has covered a spread of the frontier
+        frontier.sort(key=lambda x: hashlib.sha1(
+            json.dumps(x).encode()).digest())
+        bs = max(1, min(6, len(frontier) // max(1, procs * 8)))
+        items = [
+            (space_mod, cfgs, i // bs, [
+                (pi, h, keep or d < parts[pi]['depth'])
+                for pi, h in frontier[i:i + bs]])
+            for i in range(0, len(frontier), bs)
+        ]
+        cand: dict[bytes, tuple] = {}
+        dead: set = set()
+        done_batches = 0
+        done_items: Counter = Counter()
+        lvl_trans: Counter = Counter()
+        # forked workers must not let a full collection touch (and thereby
+        # copy) the parent's heap: park everything in the permanent generation
+        gc.collect()
+        gc.freeze()
+        eff = max(1, min(procs, len(frontier) // 3))
+        for r in pmap(_expand_batch, items, procs=eff, deadline=deadline,
+                      initfn=gc.freeze):
+            done_batches += 1
+            done_items.update(r['items_per_part'])
+            for pi, (tr, meth, fnd) in r['per_part'].items():
+                lvl_trans[pi] += tr
+                RS[pi].transitions += tr
+                RS[pi].methods.update(meth)
+                for (prop, sig), rec in fnd.items():
+                    RS[pi].merge_finding(prop, sig, rec['what'], rec['replay'],
+                                         rec['count'])
+            dead |= r['dead']
+            for k, (h, nt) in r['new'].items():
+                cur = cand.get(k)
+                if cur is None or (h is not None and cur[0] is not None
+                                   and json.dumps(h) < json.dumps(cur[0])):
+                    cand[k] = (h, nt)
+        for k in dead:
+            cand.pop(k, None)
+        dead -= _SEEN
+        _SEEN |= dead
+        new_keys = [k for k in cand if k not in _SEEN]
+        _SEEN.update(new_keys)
+        nxt: list[tuple] = []
+        n_new: Counter = Counter()
+        n_dead: Counter = Counter(k[0] for k in dead)
+        for k in new_keys:
+            pi = k[0]
+            h, nt = cand[k]
+            n_new[pi] += 1
+            RS[pi].nontrivial += 1 if nt else 0
+            if h is not None:
+                nxt.append((pi, h))
+                if keep:
+                    RS[pi].histories.append(h)
+        in_level = Counter(pi for pi, _ in frontier)
+        for pi in sorted(in_level):
+            R = RS[pi]
+            R.states += n_new[pi] + n_dead[pi]
+            R.broken_states += n_dead[pi]
+            if n_new[pi]:
+                R.max_depth = d
+            lvl = {
+                'depth': d, 'expanded': done_items[pi], 'frontier': in_level[pi],
+                'transitions': lvl_trans[pi], 'new_states': n_new[pi],
+                'broken_states': n_dead[pi], 'wall_s': round(time.time() - t0, 1),
+            }
+            R.levels.append(lvl)
+            if progress:
+                progress(pi, lvl)
+            if len(R.samples) < 6:
+                hs = sorted((h for q, h in nxt if q == pi),
+                            key=lambda h: json.dumps(h))
+                R.samples.extend({'history': h} for h in hs[:2])
+            if done_items[pi] < in_level[pi]:
+                R.capped = (
+                    f'time cap during BFS level {d}: {done_items[pi]} of '
+                    f'{in_level[pi]} frontier states expanded '
+                    f'(levels < {d} complete)')
+        if done_batches < len(items):
+            break
+        frontier = nxt
+    gc.unfreeze()
+    return RS
 
 
 def bfs(space_mod: str, cfg: dict, depth: int, procs: int = 16,
@@ -115,95 +234,16 @@ def bfs(space_mod: str, cfg: dict, depth: int, procs: int = 16,
         progress: Any = None, root: list | None = None) -> Result:
     """Breadth-first search to `depth` calls from the initial object (or
     from the state reached by the history `root`)."""
-    global _SEEN
-    sp = importlib.import_module(space_mod).SPACE
-    R = Result()
-    _SEEN = set()
-    root = list(root or [])
-    obj = sp.replay(cfg, root)
-    obs = sp.observe(obj)
-    _SEEN.add(sp.key(obj, obs))
-    F, broken = sp.judge_state(obj, obs, 'init')
-    if F or broken:
-        raise HarnessError(f'initial state is not clean: {F}')
-    R.states = 1
-    if keep:
-        R.histories.append(root)
-    frontier: list[list] = [root]
-    for d in range(1, depth + 1):
-        if not frontier:
-            break
-        t0 = time.time()
-        frontier.sort(key=lambda h: json.dumps(h))
-        bs = max(1, min(24, len(frontier) // max(1, procs * 6)))
-        batches = [frontier[i:i + bs] for i in range(0, len(frontier), bs)]
-        want_hist = keep or d < depth
-        items = [(space_mod, cfg, i, b, want_hist) for i, b in enumerate(batches)]
-        cand: dict[bytes, tuple] = {}
-        dead: set = set()
-        done_hist = 0
-        done_batches = 0
-        lvl_trans = 0
-        # forked workers must not let a full collection touch (and thereby
-        # copy) the parent's heap: park everything in the permanent generation
-        gc.collect()
-        gc.freeze()
-        eff = procs if len(frontier) > 2 else 1
-        for r in pmap(_expand_batch, items, procs=eff, deadline=deadline,
-                      initfn=gc.freeze):
-            done_batches += 1
-            done_hist += r['n_hist']
-            lvl_trans += r['transitions']
-            R.methods.update(r['methods'])
-            for (prop, sig), rec in r['findings'].items():
-                R.merge_finding(prop, sig, rec['what'], rec['replay'], rec['count'])
-            dead |= r['dead']
-            for k, (h, nt) in r['new'].items():
-                cur = cand.get(k)
-                if cur is None or (h is not None and cur[0] is not None
-                                   and json.dumps(h) < json.dumps(cur[0])):
-                    cand[k] = (h, nt)
-        R.transitions += lvl_trans
-        for k in dead:
-            cand.pop(k, None)
-        dead -= _SEEN
-        _SEEN |= dead
-        R.broken_states += len(dead)
-        new_keys = [k for k in cand if k not in _SEEN]
-        _SEEN.update(new_keys)
-        R.states += len(new_keys) + len(dead)
-        R.nontrivial += sum(1 for k in new_keys if cand[k][1])
-        if new_keys:
-            R.max_depth = d
-        nxt = [cand[k][0] for k in new_keys if cand[k][0] is not None]
-        if keep:
-            R.histories.extend(nxt)
-        lvl = {
-            'depth': d, 'expanded': done_hist, 'frontier': len(frontier),
-            'transitions': lvl_trans, 'new_states': len(new_keys),
-            'broken_states': len(dead), 'wall_s': round(time.time() - t0, 1),
-        }
-        R.levels.append(lvl)
-        if progress:
-            progress(lvl)
-        for h in sorted(nxt, key=lambda h: json.dumps(h))[:2]:
-            if len(R.samples) < 8:
-                R.samples.append({'history': h})
-        if done_batches < len(batches):
-            R.capped = (
-                f'time cap during BFS level {d} of {cfg}: {done_hist} of '
-                f'{len(frontier)} frontier states expanded (levels < {d} complete)'
-            )
-            break
-        frontier = nxt
-    return R
+    pr = (lambda pi, lvl: progress(lvl)) if progress else None
+    return bfs_multi(space_mod, [{'cfg': cfg, 'depth': depth, 'root': root}],
+                     procs=procs, deadline=deadline, keep=keep, progress=pr)[0]
 
 
 def _deviate(arg: tuple) -> dict:
     """One position of a deviation-bounded long history: the script call at
     position i is replaced by every call of the alphabet, the rest of the
     script is run behind it."""
-    mod, cfg, script, i = arg
+    mod, cfg, script, i, job = arg
     sp = importlib.import_module(mod).SPACE
     res = Result()
     seen: set = set()
@@ -263,38 +303,47 @@ def _deviate(arg: tuple) -> dict:
                 states += 1
                 F4, _ = sp.judge_state(cur, cur_obs, hist[-1][0])
                 note(F4, hist[:-1], hist[-1], 'state')
-    return {'i': i, 'transitions': res.transitions, 'methods': res.methods,
+    return {'i': i, 'job': job, 'transitions': res.transitions, 'methods': res.methods,
             'findings': res.findings, 'states': states,
             'nontrivial': res.nontrivial}
 
 
-def deviations(space_mod: str, cfg: dict, script: list, procs: int = 16,
-               deadline: float | None = None) -> Result:
-    """All histories that differ from `script` in exactly one position
-    (every position, every other call of the alphabet in the state reached
-    there), each executed to its end on the real object."""
-    R = Result()
-    positions = list(range(len(script) + 1))
-    items = [(space_mod, cfg, script, i) for i in positions]
+def deviations(space_mod: str, jobs: list[tuple], procs: int = 16,
+               deadline: float | None = None) -> list[Result]:
+    """jobs = [(cfg, script), ...].  For each job, all histories that differ
+    from the script in exactly one position (every position, every other call
+    of the alphabet in the state reached there), each executed to its end on
+    the real object.  One worker pool for all jobs; one Result per job."""
+    RS = [Result() for _ in jobs]
+    items = []
+    for ji, (cfg, script) in enumerate(jobs):
+        for i in range(len(script) + 1):
+            items.append((space_mod, cfg, script, i, ji))
+    # late positions are the expensive ones: start them first
+    items.sort(key=lambda it: -it[3])
     gc.collect()
     gc.freeze()
-    done = 0
+    done: Counter = Counter()
     for r in pmap(_deviate, items, procs=procs, deadline=deadline,
                   initfn=gc.freeze):
-        done += 1
+        R = RS[r['job']]
+        done[r['job']] += 1
         R.transitions += r['transitions']
         R.states += r['states']
         R.nontrivial += r['nontrivial']
         R.methods.update(r['methods'])
         for (prop, sig), rec in r['findings'].items():
             R.merge_finding(prop, sig, rec['what'], rec['replay'], rec['count'])
-    R.max_depth = len(script)
-    R.samples.append({'script': script[:4] + ['...'] + script[-2:],
-                      'deviation': 'every alphabet call at every position'})
-    if done < len(items):
-        R.capped = (f'time cap: {done} of {len(items)} deviation positions of '
-                    f'the {len(script)}-call script on {cfg["radixes"]} completed')
-    return R
+    gc.unfreeze()
+    for ji, (cfg, script) in enumerate(jobs):
+        R = RS[ji]
+        R.max_depth = len(script)
+        R.samples.append({'script': script[:3] + ['...'] + script[-2:],
+                          'deviation': 'every alphabet call at every position'})
+        if done[ji] < len(script) + 1:
+            R.capped = (f'time cap: {done[ji]} of {len(script) + 1} deviation '
+                        f'positions of the {len(script)}-call script completed')
+    return RS
 
 
 def enumerate_states(space_mod: str, cfg: dict, depth: int, procs: int = 16,
